@@ -151,7 +151,7 @@ int Group__compare(struct Group* self, struct Group* group2)
 #define INCL_DISTINCT(i, j) (!((j) < RN_) || RA_[i] != RA_[j])
 #define INCL_ELEM(k) (!((k) < RN_) || PID(GN, k) == PID(self, RA_[k]))
 #define INCL_PRE                                                                                                       \
-  (RSHAPE(self) && WF(self) && vf_exc == 0 && 0 <= RN_ && RN_ <= CAP && RA_ == g_ranks &&      \
+  (RSHAPE(self) && WF(self) && vf_exc == 0 && 0 <= RN_ && RN_ <= CAP && __CPROVER_r_ok(RA_, CAP * sizeof(int)) &&      \
    newgroup == &g_out && POOL_READY && ALL(INCL_VALID) && ALLPAIRS(INCL_DISTINCT))
 #define NEW_IS_GN (*newgroup == GN && NEWSHAPE(GN))
 
@@ -176,6 +176,132 @@ int Group__incl(struct Group* self, int n, int* ranks, struct Group** newgroup)
           __CPROVER_decreases(n - i)
 #undef RN_
 #undef RA_
+
+/* incl(vector): same contract, rank list held by a vector */
+#define RN_ ((int)ranks->n)
+#define RA_ (ranks->d)
+int Group__incl_vec(struct Group* self, struct vf_seq_int* ranks, struct Group** newgroup)
+    __CPROVER_requires(__CPROVER_r_ok(ranks, sizeof(*ranks)) && ranks->h == 0 && ranks->n <= CAP)
+    __CPROVER_requires(INCL_PRE)
+    __CPROVER_assigns(NEW_FRAME)
+    __CPROVER_ensures(__CPROVER_return_value == SUCCESS && vf_exc == 0)
+    __CPROVER_ensures(RN_ != 0 || *newgroup == &smpi_MPI_GROUP_EMPTY) /*@ inclvec_of_nothing_is_group_empty */
+    __CPROVER_ensures(RN_ == 0 || (NEW_IS_GN && N(GN) == ranks->n && WF(GN))) /*@ inclvec_result_is_wellformed_group_of_n */
+    __CPROVER_ensures(RN_ == 0 || ALL(INCL_ELEM)) /*@ inclvec_rank_i_is_member_ranks_i */;
+#undef RN_
+#undef RA_
+
+/* ---- "selection" results: the members i of group S satisfying K(i), in the order of S ---------------------------
+ * SEL_BEFORE(i,S,K) = number of kept members before position i = the new rank of member i when it is kept.      */
+#define SEL_TERM(j, i, S, K) ((j) < (i) && (unsigned long)(j) < N(S) && K(j))
+#define SEL_BEFORE(i, S, K) SUMC(SEL_TERM, i, S, K)
+#define SEL_TOTAL(S, K) SEL_BEFORE(CAP, S, K)
+#define SEL_ELEM(i, S, K) (!((unsigned long)(i) < N(S) && K(i)) || PID(GN, SEL_BEFORE(i, S, K)) == PID(S, i))
+#define SEL_POST(S, K)                                                                                                 \
+  (SEL_TOTAL(S, K) == 0 ? *newgroup == &smpi_MPI_GROUP_EMPTY                                                           \
+                        : (NEW_IS_GN && N(GN) == (unsigned long)SEL_TOTAL(S, K) && WF(GN) && ALLB(SEL_ELEM, S, K)))
+/* loop collecting the kept positions into the local vector V: V = kept positions below i, in increasing order */
+#define SEL_INV_FWD(j, S, K, V) (!((j) < i && (unsigned long)(j) < N(S) && K(j)) || V.d[SEL_BEFORE(j, S, K)] == (j))
+#define SEL_LOOP(S, K, V)                                                                                              \
+  __CPROVER_assigns(i, V.n, __CPROVER_object_whole(V.d))                                                               \
+      __CPROVER_loop_invariant(0 <= i && (unsigned long)i <= N(S) && V.h == 0 && V.cap == VF_CAP &&                    \
+                               V.n == (unsigned long)SEL_BEFORE(i, S, K) && ALLC(SEL_INV_FWD, S, K, V)) __CPROVER_decreases((long)N(S) - i)
+#define TWO_GROUPS_PRE                                                                                                 \
+  (RSHAPE(self) && WF(self) && RSHAPE(group2) && WF(group2) && vf_exc == 0 && g_parent == NULL && newgroup == &g_out && \
+   POOL_READY)
+
+/* difference: members of this group that are not in group2, ordered as in this group (MPI-3.1 6.3.2) */
+#define DIFF_KEEP(j) (RANKOF(group2, PID(self, j)) == UNDEF)
+int Group__difference(struct Group* self, struct Group* group2, struct Group** newgroup)
+    __CPROVER_requires(TWO_GROUPS_PRE)
+    __CPROVER_assigns(NEW_FRAME)
+    __CPROVER_ensures(__CPROVER_return_value == SUCCESS && vf_exc == 0)
+    __CPROVER_ensures(SEL_POST(self, DIFF_KEEP)) /*@ difference_is_first_group_minus_second_in_first_group_order */;
+#define VF_LOOP_Group__difference_0 SEL_LOOP(self, DIFF_KEEP, ranks)
+
+/* intersection: members of this group that are also in group2, ordered as in THIS (the first) group (MPI-3.1 6.3.2) */
+#define INTER_KEEP(j) (RANKOF(group2, PID(self, j)) != UNDEF)
+int Group__intersection(struct Group* self, struct Group* group2, struct Group** newgroup)
+    __CPROVER_requires(TWO_GROUPS_PRE)
+    __CPROVER_assigns(NEW_FRAME)
+    __CPROVER_ensures(__CPROVER_return_value == SUCCESS && vf_exc == 0)
+    __CPROVER_ensures(SEL_POST(self, INTER_KEEP)) /*@ intersection_is_common_members_in_first_group_order */;
+/* the code walks group2 and keeps its members that are in this group */
+#define INTER_KEEP2(j) (RANKOF(self, PID(group2, j)) != UNDEF)
+#define VF_LOOP_Group__intersection_0 SEL_LOOP(group2, INTER_KEEP2, ranks2)
+
+/* excl(map): members whose flag is false, in the original order; the map must have one flag per member */
+#define EXM_KEEP(j) (!excl_map->d[j])
+int Group__excl_map(struct Group* self, struct vf_seq__Bool* excl_map, struct Group** newgroup)
+    __CPROVER_requires(RSHAPE(self) && WF(self) && vf_exc == 0 && newgroup == &g_out && POOL_READY &&
+                       __CPROVER_r_ok(excl_map, sizeof(*excl_map)) && excl_map->h == 0 && excl_map->n <= CAP &&
+                       __CPROVER_r_ok(excl_map->d, CAP * sizeof(_Bool)))
+    __CPROVER_assigns(vf_exc, NEW_FRAME)
+    __CPROVER_ensures((vf_exc == VF_EXC_ABORT) == (excl_map->n != N(self))) /*@ exclmap_needs_one_flag_per_member */
+    __CPROVER_ensures(vf_exc == 0 || vf_exc == VF_EXC_ABORT)
+    __CPROVER_ensures(vf_exc != 0 || (__CPROVER_return_value == SUCCESS && SEL_POST(self, EXM_KEEP)))
+    /*@ exclmap_keeps_unflagged_members_in_order */;
+#define VF_LOOP_Group__excl_map_0 SEL_LOOP(self, EXM_KEEP, ranks)
+
+/* excl(n, ranks): members whose rank is not listed, in the original order (MPI-3.1 6.3.2); ranks must be valid */
+#define EXCL_HIT(k, j) ((k) < n && ranks[k] == (j))
+#define EXCL_KEEP(j) (!ANYA(EXCL_HIT, j))
+#define EXCL_VALID(k) (!((k) < n) || (0 <= ranks[k] && (unsigned long)ranks[k] < N(self)))
+int Group__excl(struct Group* self, int n, int* ranks, struct Group** newgroup)
+    __CPROVER_requires(RSHAPE(self) && WF(self) && vf_exc == 0 && newgroup == &g_out && POOL_READY && 0 <= n && n <= CAP &&
+                       __CPROVER_r_ok(ranks, CAP * sizeof(int)) && ALL(EXCL_VALID))
+    __CPROVER_assigns(vf_exc, NEW_FRAME)
+    __CPROVER_ensures(__CPROVER_return_value == SUCCESS && vf_exc == 0)
+    __CPROVER_ensures(SEL_POST(self, EXCL_KEEP)) /*@ excl_keeps_unlisted_members_in_order */;
+#define EXCL_HIT_BEFORE(k, j) ((k) < i && ranks[k] == (j))
+#define EXCL_INV(j) (!((unsigned long)(j) < N(self)) || to_excl.d[j] == ANYA(EXCL_HIT_BEFORE, j))
+#define VF_LOOP_Group__excl_0                                                                                          \
+  __CPROVER_assigns(i, __CPROVER_object_whole(to_excl.d))                                                              \
+      __CPROVER_loop_invariant(0 <= i && i <= n && to_excl.h == 0 && to_excl.n == N(self) && ALL(EXCL_INV))            \
+          __CPROVER_decreases(n - i)
+
+/* union: all members of this group in order, then the members of group2 that are not in this group, in group2's order */
+#define UNI_KEEP(j) (RANKOF(self, PID(group2, j)) == UNDEF)
+#define UNI_TOTAL SEL_TOTAL(group2, UNI_KEEP)
+#define UNI_FIRST(i) (!((unsigned long)(i) < N(self)) || PID(GN, i) == PID(self, i))
+#define UNI_SECOND(j)                                                                                                  \
+  (!((unsigned long)(j) < N(group2) && UNI_KEEP(j)) || PID(GN, N(self) + SEL_BEFORE(j, group2, UNI_KEEP)) == PID(group2, j))
+int Group__group_union(struct Group* self, struct Group* group2, struct Group** newgroup)
+    __CPROVER_requires(TWO_GROUPS_PRE)
+    __CPROVER_assigns(NEW_FRAME)
+    __CPROVER_ensures(__CPROVER_return_value == SUCCESS && vf_exc == 0)
+    __CPROVER_ensures(N(self) + UNI_TOTAL != 0 || *newgroup == &smpi_MPI_GROUP_EMPTY) /*@ union_of_empties_is_group_empty */
+    __CPROVER_ensures(N(self) + UNI_TOTAL == 0 || (NEW_IS_GN && N(GN) == N(self) + UNI_TOTAL && WF(GN)))
+    /*@ union_size_is_first_plus_new_members */
+    __CPROVER_ensures(N(self) + UNI_TOTAL == 0 || ALL(UNI_FIRST)) /*@ union_starts_with_first_group_in_order */
+    __CPROVER_ensures(N(self) + UNI_TOTAL == 0 || ALL(UNI_SECOND)) /*@ union_then_new_members_of_second_in_its_order */;
+/* loop 0 collects the kept positions of group2 into ranks2; loops 1 and 2 fill the new group */
+#define VF_LOOP_Group__group_union_0 SEL_LOOP(group2, UNI_KEEP, ranks2)
+#define UNI_INV_R(k)                                                                                                   \
+  (!((k) < i_2) || (PID(GN, k) == ((unsigned long)(k) < N(self) ? PID(self, k) : PID(group2, ranks2.d[(k) - N(self)])) && \
+                    PID(GN, k) >= 0 && (unsigned long)PID(GN, k) < PN(GN) && RK(GN, PID(GN, k)) == (k)))
+#define UNI_INV_P(p)                                                                                                   \
+  (!((p) < PN(GN)) || RK(GN, p) == UNDEF || (0 <= RK(GN, p) && RK(GN, p) < i_2 && PID(GN, RK(GN, p)) == (p)))
+#define UNI_R2_FWD(j) (!((unsigned long)(j) < N(group2) && UNI_KEEP(j)) || ranks2.d[SEL_BEFORE(j, group2, UNI_KEEP)] == (j))
+#define UNI_RANKS2_OK                                                                                                  \
+  (ranks2.h == 0 && ranks2.cap == VF_CAP && ranks2.n == (unsigned long)UNI_TOTAL && ALL(UNI_R2_FWD) && \
+   N(GN) == N(self) + ranks2.n && N(GN) <= CAP && *newgroup == GN && NEWSHAPE(GN))
+#define VF_LOOP_Group__group_union_1                                                                                   \
+  __CPROVER_assigns(i_2, g_new.pid_to_rank_map_.n, __CPROVER_object_whole(n_p2r), __CPROVER_object_whole(n_r2p))       \
+      __CPROVER_loop_invariant(0 <= i_2 && (unsigned long)i_2 <= N(self) && PN(GN) <= CAP && UNI_RANKS2_OK &&          \
+                               ALL(UNI_INV_R) && ALL(UNI_INV_P)) __CPROVER_decreases((long)N(self) - i_2)
+#define VF_LOOP_Group__group_union_2                                                                                   \
+  __CPROVER_assigns(__i2, i_2, g_new.pid_to_rank_map_.n, __CPROVER_object_whole(n_p2r), __CPROVER_object_whole(n_r2p)) \
+      __CPROVER_loop_invariant(__i2 <= __r2->n && __r2 == &ranks2 && (unsigned long)i_2 == N(self) + __i2 &&           \
+                               PN(GN) <= CAP && UNI_RANKS2_OK && ALL(UNI_INV_R) && ALL(UNI_INV_P))                     \
+          __CPROVER_decreases(__r2->n - __i2)
+
+/* is_rank_in_range: rank lies between first and last, whichever is larger (ranges may run downwards) */
+_Bool is_rank_in_range(int rank, int first, int last)
+    __CPROVER_requires(1)
+    __CPROVER_assigns()
+    __CPROVER_ensures(__CPROVER_return_value == ((first <= last) ? (first <= rank && rank <= last) : (last <= rank && rank <= first)))
+    /*@ in_range_iff_between_bounds */;
 
 #include "gen.c"
 
@@ -261,4 +387,38 @@ void harness(void)
   Group__incl(&g_a, nondet_int(), g_ranks, &g_out);
   VF_CANARY_POINT;
 }
+#endif
+
+struct vf_seq_int g_rv;      /* rank list handed to incl(vector) */
+_Bool g_flags[CAP];
+struct vf_seq__Bool g_fv;    /* flag map handed to excl(map) */
+static void setup_vectors(void)
+{
+  g_rv.d = g_ranks; g_rv.h = 0; g_rv.cap = VF_CAP; g_rv.n = nondet_size();
+  g_fv.d = g_flags; g_fv.h = 0; g_fv.cap = VF_CAP; g_fv.n = nondet_size();
+  for (int k = 0; k < CAP; k++) { g_ranks[k] = nondet_int(); g_flags[k] = nondet_bool(); }
+}
+#ifdef H_incl_vec
+void harness(void) { setup(); setup_vectors(); Group__incl_vec(&g_a, &g_rv, &g_out); VF_CANARY_POINT; }
+#endif
+#ifdef H_excl_map
+void harness(void) { setup(); setup_vectors(); Group__excl_map(&g_a, &g_fv, &g_out); VF_CANARY_POINT; }
+#endif
+#ifdef H_excl
+void harness(void) { setup(); setup_vectors(); Group__excl(&g_a, nondet_int(), g_ranks, &g_out); VF_CANARY_POINT; }
+#endif
+#ifdef H_difference
+void harness(void) { setup(); Group__difference(&g_a, &g_b, &g_out); VF_CANARY_POINT; }
+#endif
+#ifdef H_intersection
+void harness(void) { setup(); Group__intersection(&g_a, &g_b, &g_out); VF_CANARY_POINT; }
+#endif
+#ifdef H_group_union
+void harness(void) { setup(); Group__group_union(&g_a, &g_b, &g_out); VF_CANARY_POINT; }
+#endif
+#ifdef H_compare_self
+void harness(void) { setup(); __CPROVER_assume(RSHAPE(&g_a) && WF(&g_a) && g_parent == NULL); int r = Group__compare(&g_a, &g_a); __CPROVER_assert(r == IDENT, "a group is identical to itself"); VF_CANARY_POINT; }
+#endif
+#ifdef H_is_rank_in_range
+void harness(void) { is_rank_in_range(nondet_int(), nondet_int(), nondet_int()); VF_CANARY_POINT; }
 #endif
